@@ -97,11 +97,11 @@ theorem frequencyToN_nToFrequency_grid (n grid : Int) (hg : grid ≠ 0) : freque
 def LayoutOK (grid : Int) : Int → List Band → Int → Prop
   | prev, [], nMax => prev ≤ nMax
   | prev, b :: bs, nMax =>
-    prev < frequencyToN b.1 grid ∧ frequencyToN b.1 grid ≤ frequencyToN b.2 grid ∧ LayoutOK grid (frequencyToN b.2 grid) bs nMax
+    prev < bandLo b.1 grid ∧ bandLo b.1 grid ≤ bandHi b.2 grid ∧ LayoutOK grid (bandHi b.2 grid) bs nMax
 
 /-- slot index `x` lies in one of the bands (index view) -/
 def InBands (grid : Int) (bands : List Band) (x : Int) : Prop :=
-  ∃ b ∈ bands, frequencyToN b.1 grid ≤ x ∧ x ≤ frequencyToN b.2 grid
+  ∃ b ∈ bands, bandLo b.1 grid ≤ x ∧ x ≤ bandHi b.2 grid
 
 theorem layout_le (grid : Int) : ∀ (bands : List Band) (prev nMax : Int), LayoutOK grid prev bands nMax → prev ≤ nMax := by
   intro bands
@@ -147,13 +147,13 @@ theorem bandCells_spec (grid : Int) : ∀ (bands : List Band) (prev nMax : Int),
     have hall := h
     simp only [LayoutOK] at h
     obtain ⟨h1, h2, h3⟩ := h
-    obtain ⟨i1, i2, i3, i5, i4⟩ := ih (frequencyToN b.2 grid) nMax h3
+    obtain ⟨i1, i2, i3, i5, i4⟩ := ih (bandHi b.2 grid) nMax h3
     have later := layout_inBands grid bs _ _ h3
     simp only [bandCells]
-    have hl1 : (rep (frequencyToN b.1 grid - prev - 1) Cell.unusable).length = (frequencyToN b.1 grid - prev - 1).toNat :=
+    have hl1 : (rep (bandLo b.1 grid - prev - 1) Cell.unusable).length = (bandLo b.1 grid - prev - 1).toNat :=
       length_rep _ _
-    have hl2 : (rep (frequencyToN b.2 grid - frequencyToN b.1 grid + 1) Cell.free).length =
-        (frequencyToN b.2 grid - frequencyToN b.1 grid + 1).toNat := length_rep _ _
+    have hl2 : (rep (bandHi b.2 grid - bandLo b.1 grid + 1) Cell.free).length =
+        (bandHi b.2 grid - bandLo b.1 grid + 1).toNat := length_rep _ _
     refine ⟨by omega, i2, ?_, ?_, ?_⟩
     · simp only [List.length_append, hl1, hl2, i3]; omega
     · rintro x ⟨c, hc, hc1, hc2⟩
@@ -163,7 +163,7 @@ theorem bandCells_spec (grid : Int) : ∀ (bands : List Band) (prev nMax : Int),
     · intro k hk
       simp only [List.length_append, hl1, hl2] at hk
       rw [List.append_assoc, List.getElem?_append, hl1]
-      by_cases c1 : k < (frequencyToN b.1 grid - prev - 1).toNat
+      by_cases c1 : k < (bandLo b.1 grid - prev - 1).toNat
       · right
         simp only [c1, if_true, getElem?_rep]
         refine ⟨trivial, ?_⟩
@@ -174,15 +174,15 @@ theorem bandCells_spec (grid : Int) : ∀ (bands : List Band) (prev nMax : Int),
           omega
       · simp only [c1, if_false]
         rw [List.getElem?_append, hl2]
-        by_cases c2 : k - (frequencyToN b.1 grid - prev - 1).toNat < (frequencyToN b.2 grid - frequencyToN b.1 grid + 1).toNat
+        by_cases c2 : k - (bandLo b.1 grid - prev - 1).toNat < (bandHi b.2 grid - bandLo b.1 grid + 1).toNat
         · left
           simp only [c2, if_true, getElem?_rep]
           exact ⟨trivial, b, List.mem_cons_self, by omega, by omega⟩
         · simp only [c2, if_false]
-          have hk' : k - (frequencyToN b.1 grid - prev - 1).toNat - (frequencyToN b.2 grid - frequencyToN b.1 grid + 1).toNat <
-              (bandCells grid (frequencyToN b.2 grid) bs).1.length := by omega
-          have hx : frequencyToN b.2 grid + 1 +
-              ((k - (frequencyToN b.1 grid - prev - 1).toNat - (frequencyToN b.2 grid - frequencyToN b.1 grid + 1).toNat : Nat) : Int)
+          have hk' : k - (bandLo b.1 grid - prev - 1).toNat - (bandHi b.2 grid - bandLo b.1 grid + 1).toNat <
+              (bandCells grid (bandHi b.2 grid) bs).1.length := by omega
+          have hx : bandHi b.2 grid + 1 +
+              ((k - (bandLo b.1 grid - prev - 1).toNat - (bandHi b.2 grid - bandLo b.1 grid + 1).toNat : Nat) : Int)
               = prev + 1 + (k : Int) := by omega
           rcases i4 _ hk' with ⟨g1, g2⟩ | ⟨g1, g2⟩
           · left
